@@ -2,6 +2,7 @@
 vm_compute) against ProcessModel.save / load of the implementation on the same generated process models."""
 import csv
 import os
+import pathlib
 import random
 import shutil
 import subprocess
@@ -55,7 +56,7 @@ def random_model(rng, tmp):
     units = rng.choice(list(UNITS))
     ctype = rng.choice(['weight', 'weight', 'molar'])
     tp = rng.choice([None, rng.uniform(150, 300)])
-    pp = None if tp is not None else rng.choice([None, rng.uniform(0, 5)])
+    pp = None if tp is not None else rng.choice([None, 0.0, rng.uniform(0, 5)])
     mag = lambda: gens.loguniform(rng, 1e-9, 1e3)
     pm = ProcessModel(
         mixture=m, membrane_name='corr_membrane', feed_temperature=[rng.uniform(280, 380) for _ in range(n)],
@@ -88,6 +89,197 @@ def cell(col, text):
     if text == '':
         return '@CEmpty FOps'
     return '@CNum FOps %s' % fl(float(text))
+
+
+# ---------------------------------------------------------------- diffusion curves and JSON forms
+DC_TAGS = {'curve_id': 0, 'membrane_name': 1, 'mixture': 2, 'comment': 3}
+
+
+def dc_cell(col, text):
+    if col in DC_TAGS:
+        return '@CName FOps %d' % DC_TAGS[col]
+    if col == 'composition_type':
+        return '@CCType FOps %s' % ('Molar' if text == 'molar' else 'Weight')
+    if col == 'units':
+        return '@CEmpty FOps' if text == '' else '@CUnits FOps %s' % UNITS[text]
+    if text == '':
+        return '@CEmpty FOps'
+    return '@CNum FOps %s' % fl(float(text))
+
+
+def curve_text(c):
+    return '(Build_Curve FOps %s [%s] [%s] %s %s [%s])' % (
+        fl(c.feed_temperature), '; '.join(comp(x) for x in c.feed_compositions),
+        '; '.join('(%s, %s)' % (fl(j[0]), fl(j[1])) for j in c.partial_fluxes), opt(c.permeate_temperature), opt(c.permeate_pressure),
+        '; '.join('(%s, %s)' % (perm(q[0]), perm(q[1])) for q in c.permeances))
+
+
+def random_curve(rng):
+    from pyvaporation.diffusion_curve import DiffusionCurve
+    m = rng.choice(gens.builtin_mixtures())
+    n = rng.randint(1, 5)
+    ctype = rng.choice(['weight', 'molar'])
+    xs = [pv.Composition(p=rng.uniform(0.02, 0.98), type=ctype) for _ in range(n)]
+    T = rng.uniform(290, 370)
+    mode = rng.choice(['vac', 'temp', 'press'])
+    tp = rng.uniform(150, 260) if mode == 'temp' else None
+    pp = rng.choice([0.0, rng.uniform(0, 0.3)]) if mode == 'press' else None
+    mag = lambda: gens.loguniform(rng, 1e-9, 1e1)
+    units = rng.choice(list(UNITS))
+    how = rng.choice(['J', 'P', 'both'])
+    kw = {}
+    if how in ('J', 'both'):
+        kw['partial_fluxes'] = [(mag(), mag()) for _ in range(n)]
+    if how in ('P', 'both'):
+        kw['permeances'] = [(pv.Permeance(mag(), 'kg/(m2*h*kPa)').convert(units, m.first_component),
+                             pv.Permeance(mag(), 'kg/(m2*h*kPa)').convert(units, m.second_component)) for _ in range(n)]
+    c = DiffusionCurve(mixture=m, membrane_name='corr_membrane', feed_temperature=T, feed_compositions=xs,
+                       permeate_temperature=tp, permeate_pressure=pp, comments='corr', **kw)
+    return c, m, dict(points=n, basis=ctype, mode=mode, built_from=how, units=units)
+
+
+def curve_items(rng, tmp, ncases, items, samples, dist):
+    """DiffusionCurve.save -> csv cells -> DiffusionCurveSet.load, against save_curve / load_curve of the model;
+    every third case blanks columns of the written file (a hand-edited / partial data file) before loading"""
+    from pyvaporation.diffusion_curve import DiffusionCurveSet
+    from pyvaporation.diffusion_curve.diffusion_curve import DC_SET_COLUMNS
+    import corr_numeric
+    for k in range(ncases):
+        try:
+            c, m, info = random_curve(rng)
+        except (ValueError, ZeroDivisionError):
+            continue
+        path = os.path.join(tmp, 'curve_%d.csv' % k)
+        c.save(path)
+        with open(path) as f:
+            rd = list(csv.reader(f))
+        header, lines = rd[0], rd[1:]
+        if header != DC_SET_COLUMNS:
+            items.append(('false', 'curve header %r' % header))
+            continue
+        table = '[%s]' % '; '.join('[%s]' % '; '.join(dc_cell(cn, t) for cn, t in zip(header, ln)) for ln in lines)
+        expr_save = '(saved_same (save_curve FOps 0 1 2 3 %s) %s)' % (curve_text(c), table)
+        blank = [None, None, 'P', 'J', 'both', 'P1'][k % 6]
+        if blank:
+            cols = {'P': ['permeance_1', 'permeance_2', 'units'], 'J': ['partial_flux_1', 'partial_flux_2'],
+                    'both': ['permeance_1', 'partial_flux_2'], 'P1': ['permeance_1']}[blank]
+            rows = [list(ln) for ln in lines]
+            for r_i, ln in enumerate(rows):
+                if blank == 'P1' and r_i != len(rows) - 1:
+                    continue            # a single hole in the last line only
+                for cn in cols:
+                    ln[header.index(cn)] = ''
+            with open(path, 'w', newline='') as f:
+                csv.writer(f).writerows([header] + rows)
+            lines = rows
+            table = '[%s]' % '; '.join('[%s]' % '; '.join(dc_cell(cn, t) for cn, t in zip(header, ln)) for ln in lines)
+        try:
+            loaded = DiffusionCurveSet.load(pathlib.Path(path)).diffusion_curves[0]
+            ltxt = '(Some %s)' % curve_text(loaded)
+            if not all(x.type == 'weight' for x in loaded.feed_compositions):
+                items.append(('false', 'curve re-loaded with a non-mass-fraction composition'))
+        except (ValueError, ZeroDivisionError, TypeError):
+            ltxt = 'None'
+        # the model needs real partial pressures only when a flux or permeance column is (partly) missing
+        if blank:
+            mix = corr_numeric.mixture(m)
+            ppf = '(real_PP FOps %s)' % mix
+        else:
+            mix = '(mk_mix %s %s)' % (fl(m.first_component.molecular_weight), fl(m.second_component.molecular_weight))
+            ppf = 'noPP'
+        expr_load = '(curve_close (load_curve FOps %s %s %s) %s)' % (ppf, mix, table, ltxt)
+        info['blanked'] = blank or 'nothing'
+        info['load'] = 'raised' if ltxt == 'None' else 'loaded'
+        items.append(('%s && %s' % (expr_save, expr_load), 'curve %r' % info))
+        key = 'curve:%s:%s' % (info['built_from'], info['blanked'])
+        dist[key] = dist.get(key, 0) + 1
+        if sum(1 for s_ in samples if s_.get('kind') == 'curve') < 1:
+            samples.append({'kind': 'curve', **info, 'first_csv_line': lines[0]})
+
+
+JKEYS = {'n': 'K_n', 'm': 'K_m', 'alpha': 'K_alpha', 'a': 'K_a', 'b': 'K_b', 'membrane_area': 'K_area',
+         'initial_feed_temperature': 'K_T0', 'initial_feed_amount': 'K_m0', 'initial_feed_composition_value': 'K_xval',
+         'initial_feed_composition_type': 'K_xtype', 'permeate_temperature': 'K_Tp', 'permeate_pressure': 'K_pp'}
+
+
+def jval(key, v):
+    if v is None:
+        return '(@JNull FOps)'
+    if key in ('n', 'm'):
+        return '(@JNat FOps %d)' % v
+    if key in ('a', 'b'):
+        return '(@JList FOps [%s])' % '; '.join(fl(e) for e in v)
+    if key == 'initial_feed_composition_type':
+        return '(@JCType FOps %s)' % ('Molar' if v == 'molar' else 'Weight')
+    return '(@JNum FOps %s)' % fl(v)
+
+
+def jobj(d):
+    unknown = [k for k in d if k not in JKEYS]
+    if unknown:
+        return None
+    return '[%s]' % '; '.join('(%s, %s)' % (JKEYS[k], jval(k, v)) for k, v in d.items())
+
+
+def pf_text(f):
+    return '(Build_PervFn FOps %d %d %s [%s] [%s])' % (f.n, f.m, fl(f.alpha), '; '.join(fl(e) for e in f.a), '; '.join(fl(e) for e in f.b))
+
+
+def cond_text(c):
+    return '(Build_Conditions FOps %s %s %s %s %s %s None)' % (fl(c.membrane_area), fl(c.initial_feed_temperature), fl(c.initial_feed_amount),
+                                                             comp(c.initial_feed_composition), opt(c.permeate_temperature), opt(c.permeate_pressure))
+
+
+def json_items(rng, tmp, ncases, items, samples, dist):
+    import json
+    from pyvaporation.conditions import TemperatureProgram
+    for k in range(ncases):
+        mag = lambda: gens.loguniform(rng, 1e-9, 1e3)
+        n, m_ = rng.randint(0, 3), rng.randint(0, 3)
+        f = PervaporationFunction(n=n, m=m_, alpha=mag(), a=[rng.uniform(-5, 5) for _ in range(n)], b=[rng.uniform(-3000, 3000) for _ in range(m_ + 1)])
+        path = os.path.join(tmp, 'pf_%d.json' % k)
+        f.safe_save(path)
+        d = json.load(open(path))
+        g = PervaporationFunction.safe_load(path)
+        o = jobj(d)
+        if o is None:
+            items.append(('false', 'function json has unknown keys %r' % sorted(d)))
+        else:
+            items.append(('(jobj_same (pf_to_json FOps %s) %s) && (pf_same (pf_from_json FOps %s) %s)' % (pf_text(f), o, o, pf_text(g)), 'function n=%d m=%d' % (n, m_)))
+        dist['function_json'] = dist.get('function_json', 0) + 1
+        # binary form: joblib is an oracle, the re-loaded object must be field-for-field identical
+        bpath = os.path.join(tmp, 'pf_%d.pf' % k)
+        f.save(bpath)
+        h = PervaporationFunction.load(bpath)
+        items.append(('(pf_same (Ok %s) %s)' % (pf_text(f), pf_text(h)), 'function binary n=%d m=%d' % (n, m_)))
+        tp = rng.choice([None, rng.uniform(150, 300)])
+        pp = None if tp is not None else rng.choice([None, 0.0, rng.uniform(0, 5)])
+        prog = rng.choice([None, TemperatureProgram(coefficients=[333.0, 1.0])])
+        c = Conditions(membrane_area=mag(), initial_feed_temperature=rng.uniform(280, 380), initial_feed_amount=mag(),
+                       initial_feed_composition=pv.Composition(p=rng.choice([0.0, 1.0, rng.uniform(0, 1)]), type=rng.choice(['weight', 'molar'])),
+                       permeate_temperature=tp, permeate_pressure=pp, temperature_program=prog)
+        path = os.path.join(tmp, 'cond_%d.json' % k)
+        c.safe_save(path)
+        d = json.load(open(path))
+        if k % 4 == 3:       # a hand-edited file with an out-of-range composition value: rejected by both sides
+            d['initial_feed_composition_value'] = rng.choice([-0.25, 1.5])
+            json.dump(d, open(path, 'w'))
+        try:
+            e = Conditions.safe_load(path)
+            etxt = '(Some %s)' % cond_text(e)
+            if e.temperature_program is not None:
+                items.append(('false', 'conditions re-loaded with a temperature programme'))
+        except ValueError:
+            etxt = 'None'
+        o = jobj(d)
+        if o is None:
+            items.append(('false', 'conditions json has unknown keys %r' % sorted(d)))
+        else:
+            save_ok = 'true' if k % 4 == 3 else '(jobj_same (cond_to_json FOps %s) %s)' % (cond_text(c), o)
+            items.append(('%s && (cond_same (cond_from_json FOps %s) %s)' % (save_ok, o, etxt), 'conditions tp=%r pp=%r edited=%s' % (tp, pp, k % 4 == 3)))
+        dist['conditions_json' + (':edited' if k % 4 == 3 else '')] = dist.get('conditions_json' + (':edited' if k % 4 == 3 else ''), 0) + 1
+        if sum(1 for s_ in samples if s_.get('kind') == 'json') < 1:
+            samples.append({'kind': 'json', 'function': json.load(open(os.path.join(tmp, 'pf_%d.json' % k))), 'conditions': d})
 
 
 def run(seed, ncases, timeout=600):
@@ -124,13 +316,16 @@ def run(seed, ncases, timeout=600):
             items.append((expr, 'n=%d units=%s safe=%s' % (n, units, safe)))
             if len(samples) < 2:
                 samples.append({'rows': n, 'units': units, 'is_safe': safe, 'first_csv_line': lines[0]})
+        dist = {'process': len(items)}
+        curve_items(rng, tmp, ncases, items, samples, dist)
+        json_items(rng, tmp, max(4, ncases // 2), items, samples, dist)
     finally:
         shutil.rmtree(tmp, ignore_errors=True)
     os.makedirs(os.path.join(COQ, 'cases'), exist_ok=True)
     path = os.path.join(COQ, 'cases', 'Persist_corr.v')
     with open(path, 'w') as f:
         f.write('(* GENERATED by harness/corr_persist.py *)\nFrom Coq Require Import ZArith List Bool PrimFloat.\n'
-                'From PV Require Import Num FNum PyBase Model.Component Model.Mixture Model.Permeance Model.Solver Model.Process Model.Persist Model.PersistCheck.\n'
+                'From PV Require Import Num FNum PyBase Model.Component Model.Mixture Model.Permeance Model.Solver Model.Process Model.Curve Model.Persist Model.PersistCheck Model.PersistCurve Model.PersistCurveCheck.\n'
                 'Import ListNotations.\nOpen Scope bool_scope.\n')
         f.write('Definition results : list bool := [\n%s\n].\n' % ';\n'.join('(%s)' % e for e, _ in items))
         f.write('Eval vm_compute in results.\n')
@@ -147,7 +342,7 @@ def run(seed, ncases, timeout=600):
             pass
     ok = p.returncode == 0 and len(vals) == len(items) and not bad
     return {'ok': ok, 'cases': len(items), 'disagreements': bad if p.returncode == 0 else ['coqc failed: ' + out[-800:]],
-            'wall_s': round(time.time() - t0, 1), 'samples': samples}
+            'wall_s': round(time.time() - t0, 1), 'samples': samples, 'distribution': dist}
 
 
 if __name__ == '__main__':
